@@ -1294,7 +1294,10 @@ def inject_errors(run: common.Run, rng: random.Random, ex: Any, jobs: List[Job],
                     rng.choice([["-c", "-q", main_rel], ["py", main_rel, "out_py"], ["c", main_rel, "out_c", "-q"], ["go", main_rel, "out_go"],
                                 ["py", main_rel, "out_py", "-q"]])]
         shared: Dict[str, Any] = {"run": run, "files": files, "kind": kind, "scope": slot.scope, "depth": depth, "exp_file": exp_file,
-                                  "exp_line": exp_line, "rel": rel, "stmt": line, "layout": lay_main.name, "state": state}
+                                  "exp_line": exp_line, "rel": rel, "stmt": line, "layout": lay_main.name, "state": state,
+                                  # an unfinished statement that is the last line of a file WITHOUT a final newline ends at the end
+                                  # of input: there is no token to cite, the compiler says "at eof" (line 0 by its convention)
+                                  "ends_at_eof": kind in ("incomplete", "stray-char") and slot.after >= len(pr.lines) and not pr.final_newline and not trail}
         if rng.random() < 0.7:
             cmds = cmds[:1] if rng.random() < 0.5 else cmds[1:]
         for argv in cmds:
@@ -1428,6 +1431,9 @@ def ev_error(j: Job, res: Dict[str, Any]) -> None:
                              observed_impl=obs, part="d/f", violation_kind=d["kind"]))
         return
     path, ln, rest = errors[0]
+    if d.get("ends_at_eof") and path == d["exp_file"] and ln == 0 and "eof" in str(rest).lower():
+        run.count("errors.unfinished_statement_at_end_of_input(cited as eof)")
+        return
     if path != d["exp_file"] or ln != d["exp_line"]:
         run.violation(replay(j, d["files"], expected_by_spec={"error cites": f"{d['rel']}:L{d['exp_line']}", **inp},
                              observed_impl=obs, part="d", violation_kind=d["kind"]))
